@@ -863,6 +863,14 @@ func (c *Ctx) visit(fr *frame, instr ssa.Instruction) cont {
 		}
 		ch.Buf = append(ch.Buf, c.get(fr, in.X))
 	case *ssa.Store:
+		if sp, ok := c.get(fr, in.Addr).(SymPtr); ok {
+			arr := sp.Base.load().(*ArrayVal)
+			nv := c.get(fr, in.Val).(*Term)
+			for k := 0; k < sp.N; k++ {
+				arr.E[sp.Off+k] = Ite(c.idxEq(sp.Idx, k), nv, arr.E[sp.Off+k].(*Term))
+			}
+			return kNext
+		}
 		p := c.get(fr, in.Addr).(Ptr)
 		if p.IsNil() {
 			c.goPanic("nil", "nil pointer dereference (store)")
@@ -1080,6 +1088,13 @@ func (c *Ctx) typeAssert(in *ssa.TypeAssert, x Iface) Value {
 // ---------------------------------------------------------------------------
 // Indexing / slicing
 
+func (c *Ctx) idxEq(i *Term, k int) *Term {
+	if c.IntMode {
+		return Eq(i, IntConst64(int64(k)))
+	}
+	return Eq(i, BVConst64(int64(k), i.S.W))
+}
+
 func (c *Ctx) idxCmp(i *Term, n int) (inRange *Term) {
 	if c.IntMode {
 		return And(ILe(IntConst64(0), i), ILt(i, IntConst64(int64(n))))
@@ -1103,15 +1118,42 @@ func (c *Ctx) concreteIndex(i *Term, n int, what string) int {
 func (c *Ctx) indexAddr(fr *frame, in *ssa.IndexAddr) Value {
 	x := c.get(fr, in.X)
 	i := c.toInt64Term(c.get(fr, in.Index).(*Term), in.Index.Type())
+	scalarElems := func(arr *ArrayVal, off, n int) bool {
+		if n == 0 {
+			return false
+		}
+		t0, ok := arr.E[off].(*Term)
+		if !ok {
+			return false
+		}
+		for k := 1; k < n; k++ {
+			t, ok := arr.E[off+k].(*Term)
+			if !ok || t.S != t0.S {
+				return false
+			}
+		}
+		return true
+	}
 	switch x := x.(type) {
 	case SliceVal:
+		if !i.IsConst() && x.Len > 1 {
+			if arr, ok := x.Base.load().(*ArrayVal); ok && scalarElems(arr, x.Off, x.Len) {
+				c.panicUnless(c.idxCmp(i, x.Len), "index", fmt.Sprintf("index out of range [sym] with length %d", x.Len))
+				return SymPtr{Base: x.Base, Off: x.Off, N: x.Len, Idx: i}
+			}
+		}
 		k := c.concreteIndex(i, x.Len, "slice index")
 		return x.elemPtr(k)
 	case Ptr: // *array
 		if x.IsNil() {
 			c.goPanic("nil", "nil pointer dereference (index)")
 		}
-		n := len(x.load().(*ArrayVal).E)
+		arr := x.load().(*ArrayVal)
+		n := len(arr.E)
+		if !i.IsConst() && n > 1 && scalarElems(arr, 0, n) {
+			c.panicUnless(c.idxCmp(i, n), "index", fmt.Sprintf("index out of range [sym] with length %d", n))
+			return SymPtr{Base: x, Off: 0, N: n, Idx: i}
+		}
 		k := c.concreteIndex(i, n, "array index")
 		return x.sub(k)
 	}
